@@ -107,6 +107,9 @@ pub struct Ev {
     pub at: u64,
     pub k: K,
     pub feature: Option<String>,
+    /// Feature path as the reporters print it (`trim_path`ed), if any.
+    #[serde(default)]
+    pub fpath: Option<String>,
     pub fptr: usize,
     pub rule: Option<String>,
     pub rptr: usize,
@@ -225,6 +228,7 @@ impl Recorder {
             at,
             k,
             feature: None,
+            fpath: None,
             fptr: 0,
             rule: None,
             rptr: 0,
@@ -254,6 +258,7 @@ impl Recorder {
                     Cucumber::Feature(f, fev) => {
                         let mut e = blank(at, K::FeatureStarted);
                         e.feature = Some(f.name.clone());
+                        e.fpath = f.path.as_ref().and_then(|p| p.to_str()).map(|p| p.trim_start_matches('/').to_owned());
                         e.fptr = self.ptrs.id(f);
                         match fev {
                             Feature::Started => {}
